@@ -72,7 +72,7 @@ type FnCtx struct {
 	cellsByName map[string][]*Cell
 	allCells map[*ssa.Alloc]*Cell
 	schemaHyps []*Term
-	covers  int
+	covers  []*Obligation
 	maxPaths int
 	usedAssumed map[string]bool
 	usedIntrinsics map[string]bool
@@ -426,6 +426,8 @@ func (fc *FnCtx) globalAssumptions(s *State) {
 func (fc *FnCtx) atReturn(s *State, rets []Val) {
 	fc.npaths++
 	fc.normalExits++
+	fc.covers = append(fc.covers, &Obligation{Func: fc.key, Name: fmt.Sprintf("%s.cover.return#%d", fc.key, fc.normalExits), Kind: "cover",
+		Hyps: s.pc[:len(s.pc):len(s.pc)], Goal: tFalse, Trace: s.trace, PathID: fc.npaths})
 	env := fc.entryEnv(s)
 	fc.bindResults(env, rets)
 	for _, h := range fc.ct.Hints {
